@@ -30,6 +30,8 @@ def jobs():
         jobs_merge.register(_JOBS)
         from . import jobs_layered
         jobs_layered.register(_JOBS)
+        from . import jobs_api
+        jobs_api.register(_JOBS)
         from . import jobs_rfwc
         jobs_rfwc.register(_JOBS)
         names = [j.name for j in _JOBS]
@@ -175,3 +177,17 @@ prop("C20", "model_checking",
      "under dfcc contracts with frees clauses.",
      LAYERED_NOTE + " Definedness of memory and allocation failure are not covered (CBMC has no such check; "
      "--no-malloc-may-fail).", "CBMC ownership counters + dfcc frees clauses along the layered-read chain", "6 C20")
+
+prop("C11", "model_checking",
+     "Each public operation (set, get, get-with-default, list sections, list keys, typed set) is run as real code "
+     "- wrappers, stripbrackets, find_key, setKeyValue, new_key, key_file_append, initialize, the group list - on an "
+     "ARBITRARY well-formed object with 0-3 live entries (sections and keys symbolic, duplicates allowed, with and "
+     "without spare pre-initialised slots) and on the objects the three constructors produce; the postcondition is "
+     "the reference ordered map of the statement plus the representation invariant. Because the start state is "
+     "arbitrary the result is inductive: it holds for operation sequences of any length within the entry bound; "
+     "growth (realloc path) is included.",
+     "Bounded: <= 3 live entries (+1 created), key universe {group-less,A,B} x {x,y}; not under dfcc (frame checked by "
+     "before/after comparison of every entry). Trusted: CBMC string models, word-wise realloc model "
+     "(stubs/realloc_words.c), numeric text axioms for the typed setter.",
+     "CBMC bounded symbolic execution of one API operation from an arbitrary well-formed state against a reference "
+     "ordered map (inductive per operation)", "6 C11")
